@@ -69,7 +69,11 @@ def structured(rng, n):
         b = rand_frame(rng, df)
         if df in (17, 18):
             tc = rng.below(32); put(b, 32, 5, tc)
-            if tc == 31 and rng.chance(3, 4): make_opstatus_ok(rng, b, rng.below(2))
+            if tc == 31 and rng.chance(3, 4):
+                make_opstatus_ok(rng, b, rng.below(2))
+                # nearly acceptable reports: exactly one gate (version, one reserved group) off
+                if rng.chance(1, 3): put(b, 72, 3, rng.below(8))
+                elif rng.chance(1, 6): put(b, rng.choice([40, 44, 56]), 2, rng.below(4))
             if tc == 19: put(b, 37, 3, rng.below(8))
         if df in (20, 21):
             put(b, 32, 8, rng.choice([0x00, 0x10, 0x20, rng.below(256)]))
